@@ -52,6 +52,8 @@ var c10Defs = []string{
 	"walk = (a) -> {\nr = []\nfor e <- elems(a) {\nr = r + [e]\nq = a[0:1] + [e]\n}\nr\n}",
 	"pairs = (a) -> {\nr = []\nfor i, e <- indices(a), elems(a) {\nr = r + [[i, e]]\n}\nr\n}",
 	"grow = (a, n) -> {\ni = 0\nwhile i < n {\na = a + [i]\ni = i + 1\n}\na\n}",
+	"twice = (a) -> [a + [1], a + [2], a]",
+	"fork = (a, d) -> if d <= 0 {\n[a]\n} else {\nfork(a + [0], d - 1) + fork(a + [1], d - 1)\n}",
 	"joinall = (a) -> {\nr = \"\"\nfor e <- elems(a) {\nr = r + toa(e) + \";\"\n}\nr\n}",
 }
 
@@ -192,7 +194,33 @@ func (C10) Run(tp *tape.Tape) core.Result {
 			a := pick('a')
 			st := pick('s')
 			v := fresh()
-			switch tp.Draw(27) {
+			switch tp.Draw(29) {
+			case 27, 28: // an argument that is itself a concatenation, extended twice by the callee: both results and the argument keep their own elements
+				inner := strings.TrimSuffix(strings.TrimPrefix(render(a), "["), "]")
+				sep := ", "
+				if inner == "" {
+					sep = ""
+				}
+				if tp.Bool() {
+					if submit(fmt.Sprintf("%s = twice(%s + [9])", v, a), v, 'a', false) {
+						goto done
+					}
+					if want := "[[" + inner + sep + "9, 1], [" + inner + sep + "9, 2], [" + inner + sep + "9]]"; snap[v] != want {
+						r.Violation = &core.Violation{Clause: "argument-extended-in-place", Detail: fmt.Sprintf("twice(%s + [9]) with %s = %s gave %s, want %s", a, a, render(a), snap[v], want), History: h}
+						goto done
+					}
+				} else {
+					if submit(fmt.Sprintf("%s = fork(%s + [7], 2)", v, a), v, 'a', false) {
+						goto done
+					}
+					p := "[" + inner + sep + "7, "
+					if want := "[" + p + "0, 0], " + p + "0, 1], " + p + "1, 0], " + p + "1, 1]]"; snap[v] != want {
+						r.Violation = &core.Violation{Clause: "argument-extended-in-place", Detail: fmt.Sprintf("fork(%s + [7], 2) gave %s, want %s", a, snap[v], want), History: h}
+						goto done
+					}
+				}
+				shared = true
+				r.Inc("concatenation_passed_as_argument_and_extended_twice", 1)
 			case 22, 23: // the text of a live array kept as a string (toa builds it; later renderings must not touch it)
 				if submit(fmt.Sprintf("%s = toa(%s)", v, a), v, 's', false) {
 					goto done
